@@ -16,6 +16,8 @@ pub enum Scn {
     Nested,
     /// `lifo`: the default schedule takes the newest queued task first (the oldest is delayed longest)
     Hooks { host: &'static str, lifo: bool },
+    /// hooks on a workflow / step whose acts are generated (a parallel act over two items, a block)
+    HooksNested { host: &'static str, over: &'static str },
     Push,
 }
 
@@ -25,6 +27,7 @@ impl Scn {
             Scn::Gen { kind, n, body } => format!("gen/{kind}/n{n}/{}", body.join("+")),
             Scn::Nested => "gen/nested/sequence-of-parallel".into(),
             Scn::Hooks { host, lifo } => format!("hooks/{host}{}", if *lifo { "/lifo" } else { "" }),
+            Scn::HooksNested { host, over } => format!("hooks/{host}/over-{over}"),
             Scn::Push => "push".into(),
         }
     }
@@ -51,6 +54,11 @@ pub fn scenarios(tier: Tier) -> Vec<Scn> {
     for host in ["workflow", "step", "act"] {
         v.push(Scn::Hooks { host, lifo: false });
         v.push(Scn::Hooks { host, lifo: true });
+    }
+    for host in ["workflow", "step"] {
+        for over in ["parallel", "sequence", "block"] {
+            v.push(Scn::HooksNested { host, over });
+        }
     }
     v.push(Scn::Push);
     v
@@ -99,6 +107,21 @@ pub fn model(sc: &Scn) -> String {
             format!(
                 "id: m16\n{w}steps:\n  - id: s1\n{s}    acts:\n      - uses: acts.core.irq\n        key: a1\n{a}      - uses: acts.core.msg\n        key: m1\n      - uses: acts.core.irq\n        key: a2\n        if: \"false\"\n  - id: s2\n    acts:\n      - uses: acts.core.irq\n        key: a3\n  - id: s3\n    if: \"false\"\n"
             )
+        }
+        Scn::HooksNested { host, over } => {
+            let mut hooks = String::new();
+            let ind = if *host == "workflow" { "" } else { "    " };
+            hooks += &format!("{ind}setup:\n");
+            for on in ["created", "completed", "before_update", "updated", "step"] {
+                hooks += &format!("{ind}  - uses: acts.core.msg\n{ind}    key: hook-{on}\n{ind}    on: {on}\n");
+            }
+            let (w, s) = if *host == "workflow" { (hooks, String::new()) } else { (String::new(), hooks) };
+            let g = match *over {
+                "parallel" => "      - uses: acts.core.parallel\n        key: gen\n        params:\n          in: [\"u0\", \"u1\"]\n          acts:\n            - uses: acts.core.irq\n              key: g0\n",
+                "sequence" => "      - uses: acts.core.sequence\n        key: gen\n        params:\n          in: [\"u0\", \"u1\"]\n          acts:\n            - uses: acts.core.irq\n              key: g0\n",
+                _ => "      - uses: acts.core.block\n        key: gen\n        params:\n          mode: parallel\n          acts:\n            - uses: acts.core.irq\n              key: g0\n            - uses: acts.core.msg\n              key: g1\n",
+            };
+            format!("id: m16\n{w}steps:\n  - id: s1\n{s}    acts:\n{g}      - uses: acts.core.msg\n        key: m1\n  - id: s2\n    acts:\n      - uses: acts.core.irq\n        key: a3\n")
         }
         Scn::Push => "id: m16\nsteps:\n  - id: s1\n    acts:\n      - uses: acts.core.irq\n        key: a1\n  - id: s2\n".to_string(),
     }
@@ -285,7 +308,7 @@ pub fn run_one(ch: &mut Chooser, sc: &Scn, want_log: bool) -> RunObs {
             push("successor-never-ran".into(), "the step after the generator never ran".into());
         }
     }
-    if let Scn::Hooks { host, .. } = sc {
+    if let Scn::Hooks { host, .. } | Scn::HooksNested { host, .. } = sc {
         // expected firings from the lifecycle events of the trace (B.8)
         let host_is = |kind: &str, nid: &str, key: &str| match *host {
             "workflow" => kind == "workflow",
@@ -444,6 +467,7 @@ fn bound_of(s: &Scn, tier: Tier) -> Option<usize> {
         Scn::Nested => Some(tier.pick(3, 6)),
         // hook acts are many small concurrent tasks
         Scn::Hooks { .. } => Some(tier.pick(2, 3)),
+        Scn::HooksNested { .. } => Some(tier.pick(1, 2)),
         _ => None,
     }
 }
